@@ -97,7 +97,16 @@ for i in range(runs):
     if i == 0:
         samples = [json.loads(x) for x in ll[:3]] + [json.loads(x) for x in vl[:3]]
         # binding self-tests on the first run: corrupt one recorded field / drop one event -> must be rejected
-        dead = [j for j, x in enumerate(ll) if '"SnapDec"' in x and '"n":0' in x]
+        # the death of a snapshot that held a part which is released later in the trace (dropping the death of an empty
+        # snapshot changes nothing the specification could object to)
+        evs = [json.loads(x) for x in ll]
+        held = {e['snap']: set(e['parts']) for e in evs if e.get('event') == 'Replace'}
+        dead = []
+        for j, e in enumerate(evs):
+            if e.get('event') == 'SnapDec' and e.get('n') == 0 and held.get(e['snap']):
+                if any(x.get('event') == 'PartZero' and x['part'] in held[e['snap']] for x in evs[j + 1:]):
+                    dead.append(j)
+                    break
         if dead:
             mut = ll[:dead[0]] + ll[dead[0] + 1:]
             selftest['lifecycle_drop_snapshot_death'] = not validate('TSTableTrace.tla', LIFE_CFG, mut, 'c05s')[0]
